@@ -158,7 +158,9 @@ def record(src):
     n, mode = src['n'], src['mode']
     case = A.base_case(src, PROP, f'square-{mode}')
     outlen = 1 if n == 1 else 2 * n
+    events = []
     try:
+      with multrace.traced(events):
         if src['gen'] and not src.get('host'):
             c = ar.generate_square(n, type=ar.SquareMode[mode], big_endian=big)
             pre = {'g': {l: {'t': 'INPUT', 'o': []} for l in c.inputs}, 'ord': list(c.inputs), 'i': list(c.inputs), 'o': [], 'u': {}, 'b': {}}
@@ -172,8 +174,11 @@ def record(src):
             fn = ar.add_square if mode == 'DEFAULT' else ar.add_square_pow2_m1
             res = fn(c, list(a), big_endian=big)
             mode_out = 'same'
-        checks = [{'op': 'mul', 'a': A.le(a, big), 'b': A.le(a, big), 'out': A.le(res, big), 'outlen': outlen}]
-        return A.finish(case, c, pre, rng, res, checks, mode_out, res if mode_out == 'set' else [])
+      checks = [{'op': 'mul', 'a': A.le(a, big), 'b': A.le(a, big), 'out': A.le(res, big), 'outlen': outlen}]
+      # squarers that do not split (the split goes through Karatsuba, whose subtraction the ledger does not know)
+      if (mode == 'POW2_M1' or n < 48 or n in (49, 53)) and len(set(a)) == n and n > 1:
+          case['ledger'] = {'A': A.le(a, big), 'B': A.le(a, big), 'ev': events, 'R': A.le(res, big)}
+      return A.finish(case, c, pre, rng, res, checks, mode_out, res if mode_out == 'set' else [])
     except Exception as e:
         case['exc'] = type(e).__name__
         return case
